@@ -637,6 +637,75 @@ func multiRun(cfg multiCfg) int {
 	return nsteps
 }
 
+// stackPersist: oracle-only, no scheduler: stack counters (each one a family of
+// ordinary counters named by the encoded stack) whose encoded names sweep the
+// name-length limit are incremented from a deep recursion with the file open;
+// afterwards every one of their counters must be persisted with nothing pending
+// (a name the file refuses leaves the counter without pointer for ever).
+//
+//go:noinline
+func deepInc(n int, sc *counter.StackCounter) {
+	if n == 0 {
+		sc.Inc()
+		return
+	}
+	deepInc(n-1, sc)
+}
+
+func stackPersist() {
+	dir, err := os.MkdirTemp(root, "s")
+	if err != nil {
+		panic(err)
+	}
+	defer os.RemoveAll(dir)
+	telemetry.Default = telemetry.NewDir(dir)
+	os.MkdirAll(telemetry.Default.LocalDir(), 0777)
+	os.WriteFile(filepath.Join(telemetry.Default.LocalDir(), "weekends"), []byte("0\n"), 0666)
+	now := time.Date(2024, 1, 3, 10, 0, 0, 0, time.UTC)
+	counter.CounterTime = func() time.Time { return now }
+	f := counter.VerifNewFile()
+	f.Rotate1()
+	out.Note("stack-counters-near-the-name-limit")
+	// the encoded stack of a 150-frame recursion is about 1.9 KiB here; the
+	// counter's own name pads the total across 4096 +- 70
+	probe := f.NewStack("probe", 150)
+	deepInc(300, probe)
+	base := 0
+	if ns := probe.Names(); len(ns) == 1 {
+		base = len(ns[0]) - len("probe")
+	}
+	var scs []*counter.StackCounter
+	if base > 0 && base < 4000 {
+		for total := 4096 - 70; total <= 4096+70; total += 1 + rnd.Intn(3) {
+			pad := total - base
+			if pad < 1 {
+				continue
+			}
+			sc := f.NewStack(strings.Repeat("s", pad), 150)
+			deepInc(300, sc)
+			scs = append(scs, sc)
+		}
+	}
+	bad, n := 0, 0
+	detail := ""
+	for _, sc := range scs {
+		for _, c := range sc.Counters() {
+			n++
+			v, err := counter.Read(c)
+			if err != nil || v != 1 || counter.VerifExtra(c) != 0 {
+				bad++
+				if detail == "" {
+					detail = fmt.Sprintf("name length %d: read=%d err=%v pending=%d", len(c.Name()), v, err, counter.VerifExtra(c))
+				}
+			}
+		}
+	}
+	out.Case(true, "stackpersist", I(int64(n)), I(int64(bad)), HS(detail))
+	f.Close()
+	vatomic.ResetClosed()
+	counter.VerifConcRelease()
+}
+
 // systematic: every schedule with at most k forced context switches, for a
 // few fixed small scenarios.
 func systematic(k int) {
@@ -693,6 +762,7 @@ func main() {
 			multi()
 		}
 	}
+	stackPersist()
 	if os.Getenv("VERIF_TIER") == "thorough" {
 		systematic(2)
 		multiSystematic(2)
